@@ -323,17 +323,21 @@ func (h *H) Shrink(cc core.Cfg) []core.Cfg {
 // ---- run ----
 
 type lineInfo struct {
-	id            int
-	stream        string
-	file          int
-	phys          string // physical file (by inode) it was written to
-	inode         uint64
-	endOff        int64
-	writtenAt     time.Duration
-	complete      bool
-	delivered     int
-	committed     int // commits that reached the input plugin
-	read          int // times the input accepted it (PassEvent true)
+	id        int
+	stream    string
+	file      int
+	phys      string // physical file (by inode) it was written to
+	inode     uint64
+	endOff    int64
+	writtenAt time.Duration
+	complete  bool
+	delivered int
+	committed int // commits that reached the input plugin
+	read      int // times the input accepted it (PassEvent true)
+	// written before a truncation of its file and not committed at that instant (preTruncMulti: the file carried
+	// several streams): a commit of such a line is a stale commit of the old content
+	preTrunc      bool
+	preTruncMulti bool
 	text          string
 	truncatedAway bool
 }
@@ -456,7 +460,6 @@ func (r *run) writer() {
 			r.fs.TruncateDirect(p)
 			r.sizes[ino] = 0
 			r.truncations++
-			inflight := map[string]bool{}
 			streamsOfFile := map[string]bool{}
 			for _, l := range r.order {
 				if l.inode != ino {
@@ -466,14 +469,19 @@ func (r *run) writer() {
 				if l.delivered == 0 {
 					l.truncatedAway = true // written before the truncation: not promised any more
 				}
-				if l.read > 0 && l.committed == 0 {
-					inflight[l.stream] = true // read, and its commit, when it comes, comes after the truncation
+				if l.committed == 0 {
+					// if its commit still comes, it comes after the truncation (the worker may hold the line in
+					// its buffer already although the pipeline has not seen it yet): see inWrap.Commit
+					l.preTrunc = true
+					l.preTruncMulti = false
 				}
 			}
-			if len(inflight) >= 1 && len(streamsOfFile) >= 2 {
-				// known defect: the "ignore commits of events read before the truncation" mark is one
-				// sequence number per file, but sequence numbers are per stream
-				r.truncMultiStream = true
+			if len(streamsOfFile) >= 2 {
+				for _, l := range r.order {
+					if l.inode == ino && l.preTrunc {
+						l.preTruncMulti = true
+					}
+				}
 			}
 			// the application keeps quiet long enough for file.d to notice (the file is shorter
 			// than what was read); what it writes afterwards must all be delivered
@@ -587,6 +595,11 @@ func (w *inWrap) Commit(e *pipeline.Event) {
 	if id, ok := idOf(e); ok {
 		if l := w.r.lines[id]; l != nil {
 			l.committed++
+			if l.preTruncMulti {
+				// known defect: the mark that makes the plugin ignore commits of events read before the truncation is
+				// ONE sequence number per file, but sequence numbers are per stream - this stale commit may get through
+				w.r.truncMultiStream = true
+			}
 		}
 	}
 	w.inner.Commit(e)
